@@ -21,6 +21,9 @@ PROBED (what is run, over which domain):
                       nesting order, each `registered((classifier, req, ctx), type, name=name)` — read live, one by one
      returnsLocal     the list returned is the object written (miss) / the object cached (hit)
      multiViewScannedLast   with the default view types the last type asked for each pair is IMultiView
+     cachedValuesImmutable  over a chain of three request interfaces R1 < R2 < R3 with views of their own, looked up in
+                      all 6 orders, twice: no list returned earlier is ever changed by a later lookup of another key, every
+                      result equals the cold result, and every cached entry stays what was written (no aliasing of values)
      keyFields / scanInputs / keyCoversScan   for each of the five inputs {view_classifier, view_types, request_iface,
                       context_iface, view_name}: does changing it alone change the adapter lookups (scan input)? does a
                       second lookup differing only in it avoid the first one's cache entry (key field)?
@@ -177,7 +180,7 @@ def _probe_find_views(out, P):
                 for r in args['request_iface'].__sro__ for c in args['context_iface'].__sro__ for t in args['view_types']]
 
     ok = dict(singleRead=True, cacheEmpty=False, writeUnderLock=True, probeBeforeScan=True, scanInLoop=True,
-              returnsLocal=True, multiViewScannedLast=True)
+              returnsLocal=True, multiViewScannedLast=True, cachedValuesImmutable=True)
 
     # ---- a hitting lookup (cold), explicit and default arguments, then warm --------------------------------
     for explicit in (True, False):
@@ -232,6 +235,29 @@ def _probe_find_views(out, P):
         ok['cacheEmpty'] = True
     if [e for e in reg.log if e[0] == 'reg'] != expected_scan(base):
         ok['scanInLoop'] = False
+
+    # ---- cached values are never mutated by lookups of other keys (no aliasing) -------------------------------
+    import itertools as _it
+    R3 = _Iface('R3', (R2, R1))
+    tableI = {((IViewClassifier, R1, C1), IView, 'n'): 'v:1', ((IViewClassifier, R2, C2), IView, 'n'): 'v:2',
+              ((IViewClassifier, R3, C1), IMultiView, 'n'): 'v:3'}
+    immut = True
+    for order in _it.permutations((R1, R2, R3)):
+        reg = _FakeRegistry(tableI)
+        returned = []
+        for rq in order + order:
+            args = dict(base, request_iface=rq)
+            cold = call(_FakeRegistry(tableI), args)
+            res = call(reg, args)
+            if res != cold:
+                immut = False
+            returned.append((res, list(res)))
+            if any(list(obj) != snap for obj, snap in returned):
+                immut = False
+            for k, v in reg.persist.items():
+                if not any(v is obj for obj, _ in returned):
+                    immut = False
+    ok['cachedValuesImmutable'] = immut
 
     # ---- which inputs does the scan depend on, which does the key distinguish ---------------------------------
     alts = dict(view_classifier=IExceptionViewClassifier, view_types=alt_types, request_iface=X1, context_iface=Y1, view_name='m')
@@ -397,7 +423,7 @@ def facts(src_root):
         sys.path.insert(0, src_root)
     defaults = dict(clears=None, swapLast=None, freshDict=None, singleRead=None, cacheEmpty=None, writeUnderLock=None,
                     probeBeforeScan=None, scanInLoop=None, returnsLocal=None, keyCoversScan=None, multiviewFirst=None,
-                    multiViewScannedLast=None, fallbackFreshDict=None, lockIsLock=None, registerViewCalls=0,
+                    multiViewScannedLast=None, cachedValuesImmutable=None, fallbackFreshDict=None, lockIsLock=None, registerViewCalls=0,
                     keyFields=['unknown'], scanInputs=['unknown'])
     out.update(defaults)
     try:
@@ -421,13 +447,13 @@ def facts(src_root):
         P.append('ast cross-check failed: %s' % e)
         out['astSingleLoad'] = None
     for k in ('clears', 'swapLast', 'freshDict', 'singleRead', 'cacheEmpty', 'writeUnderLock', 'probeBeforeScan', 'scanInLoop',
-              'returnsLocal', 'keyCoversScan', 'multiviewFirst', 'multiViewScannedLast', 'fallbackFreshDict', 'lockIsLock'):
+              'returnsLocal', 'keyCoversScan', 'multiviewFirst', 'multiViewScannedLast', 'cachedValuesImmutable', 'fallbackFreshDict', 'lockIsLock'):
         if out[k] is None:
             P.append('%s could not be determined' % k)
     out['recognised'] = not P
     summary.clear()
     summary.update({k: out[k] for k in ('recognised', 'clears', 'swapLast', 'freshDict', 'singleRead', 'cacheEmpty', 'writeUnderLock',
-                                        'keyFields', 'scanInputs', 'keyCoversScan', 'multiviewFirst', 'multiViewScannedLast', 'problems')})
+                                        'keyFields', 'scanInputs', 'keyCoversScan', 'multiviewFirst', 'multiViewScannedLast', 'cachedValuesImmutable', 'problems')})
     return out
 
 
@@ -470,6 +496,8 @@ def generate(src_root):
          'def probeBeforeScan : Bool := ' + _b(f['probeBeforeScan'], False),
          'def scanInLoop : Bool := ' + _b(f['scanInLoop'], False),
          'def returnsLocal : Bool := ' + _b(f['returnsLocal'], False),
+         '/-- a list returned / cached by `_find_views` is never changed by a later lookup of another key -/',
+         'def cachedValuesImmutable : Bool := ' + _b(f['cachedValuesImmutable'], False),
          '/-- the inputs of `_find_views` the cache key distinguishes -/',
          'def keyFields : List String := [' + ', '.join(_lstr(x) for x in f['keyFields']) + ']',
          '/-- the inputs of `_find_views` the adapter lookups depend on -/',
